@@ -6,7 +6,9 @@
     productions; [ParseAndBuildAST] is the Go method of the same name.  The stack loop runs on
     fuel: [PHang] means "not finished after [fuel] iterations", and by [C12_fuel_monotone] a
     finished run is the result for every larger fuel, so "the Go loop returns r" is
-    "[Parse G f w = r] for all large enough [f]".
+    "[Parse G O f w = r] for all large enough [f]".
+    The table is built under an iteration oracle [O] (see C10); all theorems hold for every
+    oracle that enumerates exactly the productions.
     [sentence G w] is [L G (map fst w)] of the shared base; [lm_derives G ps x y] says that
     applying the productions [ps] in order, each to the leftmost non-terminal, rewrites [x] to [y]. *)
 From Coq Require Import List.
@@ -16,8 +18,8 @@ Import ListNotations.
 (** Soundness, for every grammar: if Parse returns no error then the whole token sequence is a
     sentence and the emitted productions are its leftmost derivation from the start symbol. *)
 Theorem C12_sound :
-  forall (G : gram) (f : nat) (w : list token) (ps : list prod),
-    Parse G f w = PAccept ps ->
+  forall (G : gram) (O : oracle), oracle_ok G O -> forall (f : nat) (w : list token) (ps : list prod),
+    Parse G O f w = PAccept ps ->
     lm_derives G ps [Nt (start G)] (map Tm (word w)) /\ sentence G w.
 Proof. exact parse_sound. Qed.
 
@@ -25,95 +27,87 @@ Proof. exact parse_sound. Qed.
     is a sentence followed by further tokens is rejected (D12: the loop used to stop as soon as
     the endmarker was on top of the stack). *)
 Theorem C12_rejects_extra_tokens :
-  forall (G : gram) (f : nat) (w extra : list token) (ps : list prod),
-    ~ sentence G (w ++ extra) -> Parse G f (w ++ extra) <> PAccept ps.
-Proof. intros G f w extra ps. apply parse_rejects_non_sentences. Qed.
+  forall (G : gram) (O : oracle), oracle_ok G O -> forall (f : nat) (w extra : list token) (ps : list prod),
+    ~ sentence G (w ++ extra) -> Parse G O f (w ++ extra) <> PAccept ps.
+Proof. intros G O HO f w extra ps. now apply parse_rejects_non_sentences. Qed.
 
 (** Completeness and termination on sentences: for a valid grammar whose table is conflict-free
     every sentence is accepted by every long enough run. *)
 Theorem C12_complete :
-  forall (G : gram), valid G -> forall M : table, BuildParsingTable G = Some (M, false) ->
-    forall w, sentence G w -> exists f0, forall f, f0 <= f -> exists ps, Parse G f w = PAccept ps.
+  forall (G : gram) (O : oracle), oracle_ok G O -> valid G -> forall M : table, BuildParsingTable G O = Some (M, false) ->
+    forall w, sentence G w -> exists f0, forall f, f0 <= f -> exists ps, Parse G O f w = PAccept ps.
 Proof. exact parse_complete. Qed.
 
 (** Parse returns no error iff the whole sequence is a sentence of G. *)
 Theorem C12_accepts_exactly_L :
-  forall (G : gram), valid G -> forall M : table, BuildParsingTable G = Some (M, false) ->
-    forall w, (exists f ps, Parse G f w = PAccept ps) <-> sentence G w.
+  forall (G : gram) (O : oracle), oracle_ok G O -> valid G -> forall M : table, BuildParsingTable G O = Some (M, false) ->
+    forall w, (exists f ps, Parse G O f w = PAccept ps) <-> sentence G w.
 Proof. exact parse_accept_iff. Qed.
 
 (** ParseAndBuildAST gives the verdict of Parse, and on acceptance returns a tree whose yield
     (terminals with their lexemes, left to right) is the input. *)
 Theorem C12_ast :
-  forall (G : gram) (f : nat) (w : list token),
-    match Parse G f w with
-    | PAccept _ => exists t, ParseAndBuildAST G f w = PAccept (Some t) /\ yield t = w
-    | PReject e _ => ParseAndBuildAST G f w = PReject e None
-    | PTableError => ParseAndBuildAST G f w = PTableError
-    | PPanic => ParseAndBuildAST G f w = PPanic
-    | PHang => ParseAndBuildAST G f w = PHang
+  forall (G : gram) (O : oracle) (f : nat) (w : list token),
+    match Parse G O f w with
+    | PAccept _ => exists t, ParseAndBuildAST G O f w = PAccept (Some t) /\ yield t = w
+    | PReject e _ => ParseAndBuildAST G O f w = PReject e None
+    | PTableError => ParseAndBuildAST G O f w = PTableError
+    | PPanic => ParseAndBuildAST G O f w = PPanic
+    | PHang => ParseAndBuildAST G O f w = PHang
     end.
 Proof. exact ast_verdict. Qed.
 
 Theorem C12_ast_yield :
-  forall (G : gram) (f : nat) (w : list token) (r : option tree),
-    ParseAndBuildAST G f w = PAccept r -> exists t, r = Some t /\ yield t = w.
+  forall (G : gram) (O : oracle) (f : nat) (w : list token) (r : option tree),
+    ParseAndBuildAST G O f w = PAccept r -> exists t, r = Some t /\ yield t = w.
 Proof. exact ast_sound. Qed.
 
 (** The loop never dereferences a nil production (GetProduction on a non-empty cell). *)
 Theorem C12_no_panic :
-  forall (G : gram), valid G -> forall M : table, BuildParsingTable G = Some (M, false) ->
-    forall f w, Parse G f w <> PPanic.
+  forall (G : gram) (O : oracle), oracle_ok G O -> valid G -> forall M : table, BuildParsingTable G O = Some (M, false) ->
+    forall f w, Parse G O f w <> PPanic.
 Proof. exact parse_no_panic. Qed.
 
 (** A finished run is the result for every larger fuel. *)
 Theorem C12_fuel_monotone :
-  forall (G : gram) (f k : nat) (w : list token),
-    Parse G f w <> PHang -> Parse G (f + k) w = Parse G f w.
+  forall (G : gram) (O : oracle) (f k : nat) (w : list token),
+    Parse G O f w <> PHang -> Parse G O (f + k) w = Parse G O f w.
 Proof. exact parse_fuel_mono. Qed.
 
 (** Termination: for a valid grammar with a conflict-free table the loop terminates on every
     token list (sentence or not). *)
 Theorem C12_terminates :
-  forall (G : gram), valid G -> forall M : table, BuildParsingTable G = Some (M, false) ->
-    forall w, exists f0, forall f, f0 <= f -> Parse G f w <> PHang.
+  forall (G : gram) (O : oracle), oracle_ok G O -> valid G -> forall M : table, BuildParsingTable G O = Some (M, false) ->
+    forall w, exists f0, forall f, f0 <= f -> Parse G O f w <> PHang.
 Proof. exact parse_terminates. Qed.
 
 (** The property in one statement: for a conflict-free table, every run that is long enough
     finishes, never with a panic, and it accepts (with the leftmost derivation) iff the input is
     a sentence. *)
 Theorem C12_sound_complete :
-  forall (G : gram), valid G -> forall M : table, BuildParsingTable G = Some (M, false) ->
+  forall (G : gram) (O : oracle), oracle_ok G O -> valid G -> forall M : table, BuildParsingTable G O = Some (M, false) ->
     forall w, exists f0, forall f, f0 <= f ->
-      Parse G f w <> PHang /\ Parse G f w <> PPanic /\
-      ((exists ps, Parse G f w = PAccept ps) <-> sentence G w) /\
-      (forall ps, Parse G f w = PAccept ps -> lm_derives G ps [Nt (start G)] (map Tm (word w))).
-Proof.
-  intros G HV M HB w.
-  destruct (parse_terminates G HV M HB w) as [f1 H1].
-  exists f1. intros f Hf. split; [now apply H1|]. split; [now apply (parse_no_panic G HV M HB)|]. split.
-  - split.
-    + intros [ps H]. now apply (parse_sound G f w ps).
-    + intros HS. destruct (parse_complete G HV M HB w HS) as [f0 H0].
-      destruct (H0 (f + f0)) as [ps Hps]; [apply PeanoNat.Nat.le_add_l|].
-      exists ps. rewrite <- Hps. symmetry. apply parse_fuel_mono. now apply H1.
-  - intros ps H. now apply (parse_sound G f w ps).
-Qed.
+      Parse G O f w <> PHang /\ Parse G O f w <> PPanic /\
+      ((exists ps, Parse G O f w = PAccept ps) <-> sentence G w) /\
+      (forall ps, Parse G O f w = PAccept ps -> lm_derives G ps [Nt (start G)] (map Tm (word w))).
+Proof. exact parse_sound_complete. Qed.
 
 (** Non-vacuity:  S → t0 accepts "t0" and rejects "t0 t0" (D12, fixed);
     S → t0 A ; A → t1 A | ε  on  t0 t1 t1. *)
 Example C12_example :
   let G := mkGrammar [0] [0] [mkProd 0 [Tm 0]] 0 in
-  Parse G 100 [(0, 0)] = PAccept [mkProd 0 [Tm 0]]
-  /\ Parse G 100 [(0, 0); (0, 1)] = PReject EExtraInput [mkProd 0 [Tm 0]]
-  /\ ParseAndBuildAST G 100 [(0, 7)] = PAccept (Some (Node 0 (mkProd 0 [Tm 0]) [Leaf 0 7])).
+  let O := id_oracle G in
+  Parse G O 100 [(0, 0)] = PAccept [mkProd 0 [Tm 0]]
+  /\ Parse G O 100 [(0, 0); (0, 1)] = PReject EExtraInput [mkProd 0 [Tm 0]]
+  /\ ParseAndBuildAST G O 100 [(0, 7)] = PAccept (Some (Node 0 (mkProd 0 [Tm 0]) [Leaf 0 7])).
 Proof. vm_compute. repeat split. Qed.
 
 Example C12_example_nullable :
   let G := mkGrammar [0;1] [0;1] [mkProd 0 [Tm 0; Nt 1]; mkProd 1 [Tm 1; Nt 1]; mkProd 1 []] 0 in
-  Parse G 100 [(0,0); (1,1); (1,2)]
+  let O := id_oracle G in
+  Parse G O 100 [(0,0); (1,1); (1,2)]
     = PAccept [mkProd 0 [Tm 0; Nt 1]; mkProd 1 [Tm 1; Nt 1]; mkProd 1 [Tm 1; Nt 1]; mkProd 1 []]
-  /\ Parse G 100 [(0,0); (1,1); (0,2)]
+  /\ Parse G O 100 [(0,0); (1,1); (0,2)]
     = PReject EUnacceptable [mkProd 0 [Tm 0; Nt 1]; mkProd 1 [Tm 1; Nt 1]].
 Proof. vm_compute. repeat split. Qed.
 
